@@ -148,8 +148,44 @@ pub fn run(ctx: &Ctx, rep: &mut Report) {
                 if !alive {
                     break;
                 }
-                let n = u.try_unknown(&gs, &unknown_fns, &tuples, &Auth::AsRecorded);
+                let mut n = u.try_unknown(&gs, &unknown_fns, &tuples, &Auth::AsRecorded);
                 rep.count("unknown-entry-point-tried");
+                // a batch variant of a known call: a list of refunds (as records with the parameter
+                // names of `refund`, or as plain tuples) to one receiver in two different tokens, asked
+                // for by the collector. If it is accepted, each entry must have moved what it says.
+                {
+                    use soroban_sdk::TryFromVal;
+                    let rc = receivers[0].clone();
+                    let (h0, h1) = (*bal.get(&(0, gs.clone())).unwrap_or(&0), *bal.get(&(1, gs.clone())).unwrap_or(&0));
+                    if h0 >= 1 && h1 >= 2 && rc != gs {
+                        let entry = |mid: &[u8], ti: usize, amount: i128, as_record: bool| -> ScVal {
+                            if as_record {
+                                sv_struct(vec![("message_id", sv_str(mid)), ("receiver", sv_addr(&sc_addr(&rc))), ("token", token_scval(&toks[ti].addr, amount))])
+                            } else {
+                                sv_vec(vec![sv_str(mid), sv_addr(&sc_addr(&rc)), token_scval(&toks[ti].addr, amount)])
+                            }
+                        };
+                        'batch: for as_record in [true, false] {
+                            let list = sv_vec(vec![entry(b"batch-1", 0, 1, as_record), entry(b"batch-2", 1, 2, as_record)]);
+                            let Ok(v) = Val::try_from_val(&u.env, &list) else { continue };
+                            let mut args: soroban_sdk::Vec<Val> = soroban_sdk::Vec::new(&u.env);
+                            args.push_back(v);
+                            for name in &unknown_fns {
+                                if u.try_unknown(&gs, std::slice::from_ref(name), std::slice::from_ref(&args), &Auth::AsRecorded) > 0 {
+                                    n += 1;
+                                    rep.count("note:unknown-entry-point-accepted-a-batch");
+                                    rep.step(format!("{} accepted a list of two refunds to one receiver (1 of token#0, 2 of token#1)", name));
+                                    for (ti, amount) in [(0usize, 1i128), (1, 2)] {
+                                        *bal.entry((ti, gs.clone())).or_insert(0) -= amount;
+                                        *bal.entry((ti, rc.clone())).or_insert(0) += amount;
+                                        *sums.entry((ti, "gas_refunded")).or_insert(0) += amount;
+                                    }
+                                    break 'batch;
+                                }
+                            }
+                        }
+                    }
+                }
                 let g2 = gs.clone();
                 match u.query(move |env| AxelarGasServiceClient::new(env, &g2).try_gas_collector()) {
                     Ok(Ok(c)) => {
